@@ -19,7 +19,7 @@ RULE = (
     "Histories (4-25 steps) over 1-3 datasets (typed with MetaData-adding callbacks incl. empty ones, and untyped; executor "
     "returning a unique sentinel per call or raising a unique exception): derivations with all operators, MetaData (incl. "
     "empty), QMetaData and the four result terminals; value(title), value_async with and without an override executor; "
-    "concurrent batches of 2-5 value_async coroutines on streams of (different) datasets whose executors wait on "
+    "concurrent batches of 2-5 value_async coroutines (each with its own title, the same stream possibly twice) on streams of (different) datasets whose executors wait on "
     "harness-owned gates that are released in a generated permutation, every coroutine stepped by hand; hand-assembled "
     "queries with no root or two roots. Non-trivial = >=2 datasets and (a batch released out of start order, or an "
     "execution after further derivations from the same parent). Distinct by history."
@@ -59,7 +59,9 @@ def _op(draw, nroots):
     if k <= 17:
         n = draw(st.integers(2, 5))
         ons = draw(st.lists(st.one_of(st.integers(0, 30), st.integers(-4, -1)), min_size=n, max_size=n))
-        return {"op": "batch", "on": ons, "order": draw(st.permutations(list(range(n)))), "title": draw(st.sampled_from([None, "b"]))}
+        # every member of the batch has its own title (state shared between in-flight executions would mix them up)
+        titles = draw(st.one_of(st.just(None), st.lists(st.sampled_from([None, "b", "b2", "", "it's"]), min_size=n, max_size=n)))
+        return {"op": "batch", "on": ons, "order": draw(st.permutations(list(range(n)))), "title": draw(st.sampled_from([None, "b"])), "titles": titles}
     return {"op": "bad_root", "kind": draw(st.sampled_from(["none", "two"]))}
 
 
@@ -163,7 +165,7 @@ def check(case) -> Result:
     roots = [DS(i, x["typed"], x["mode"], x.get("exc", 0)) for i, x in enumerate(case["roots"])]
     streams = [[d, i, None] for i, d in enumerate(roots)]  # stream, root index, parent
     executed_parents = set()
-    feats = {"batch-out-of-order": False, "exec-after-rederive": False, "override": False, "raise": False, "terminal-exec": False}
+    feats = {"batch-out-of-order": False, "exec-after-rederive": False, "override": False, "raise": False, "terminal-exec": False, "batch-distinct-titles": False, "batch-same-stream-twice": False}
 
     def total_calls():
         return [len(d.calls) for d in roots]
@@ -281,14 +283,19 @@ def check(case) -> Result:
             if kind == "batch":
                 ons = [o % len(streams) for o in op["on"]]
                 title = op.get("title")
+                titles = op.get("titles") or [title] * len(ons)
+                if len(set(titles)) > 1:
+                    feats["batch-distinct-titles"] = True
+                if len(set(ons)) < len(ons):
+                    feats["batch-same-stream-twice"] = True
                 for d in roots:
                     d.gated = True
                 started = []
                 try:
-                    for o in ons:
+                    for o, title_k in zip(ons, titles):
                         s, root, _ = streams[o]
                         nb = len(roots[root].calls)
-                        coro = s.value_async(title=title)
+                        coro = s.value_async(title=title_k)
                         try:
                             y = coro.send(None)
                         except StopIteration:
@@ -307,7 +314,7 @@ def check(case) -> Result:
                         o, s, root, coro, call = started[k]
                         call["gate"].open = True
                         what = f"step {step} batch member {k} (stream #{o})"
-                        err = expect_outcome(lambda: _run(coro), lambda: call, what) or check_call(s, root, call, title, what)
+                        err = expect_outcome(lambda: _run(coro), lambda: call, what) or check_call(s, root, call, titles[k], what)
                         if err:
                             return r.fail(err)
                     if total_calls() != [b + sum(1 for o in ons if streams[o][1] == i) for i, b in enumerate(before)]:
